@@ -49,9 +49,13 @@ func (cl *ClightningClient) CreateOpeningTransaction(swapParams *swap.OpeningPar
 		return "", "", "", 0, 0, err
 	}
 
-	_, vout, err = cl.bitcoinChain.GetVoutAndVerify(prepRes.UnsignedTx, swapParams)
+	ok, vout, err := cl.bitcoinChain.GetVoutAndVerify(prepRes.UnsignedTx, swapParams)
 	if err != nil {
 		return "", "", "", 0, 0, err
+	}
+	if !ok {
+		// Do not broadcast a transaction whose swap output we can not point to.
+		return "", "", "", 0, 0, errSwapOutputNotFound
 	}
 	sendRes, err := cl.glightning.SendTx(prepRes.TxId)
 	if err != nil {
@@ -62,9 +66,12 @@ func (cl *ClightningClient) CreateOpeningTransaction(swapParams *swap.OpeningPar
 
 func (cl *ClightningClient) CreatePreimageSpendingTransaction(swapParams *swap.OpeningParams, claimParams *swap.ClaimParams) (txId, txHex, address string, err error) {
 
-	_, vout, err := cl.bitcoinChain.GetVoutAndVerify(claimParams.OpeningTxHex, swapParams)
+	ok, vout, err := cl.bitcoinChain.GetVoutAndVerify(claimParams.OpeningTxHex, swapParams)
 	if err != nil {
 		return "", "", "", err
+	}
+	if !ok {
+		return "", "", "", errSwapOutputNotFound
 	}
 
 	newAddr, err := cl.glightning.NewAddr()
@@ -110,9 +117,12 @@ func (cl *ClightningClient) CreateCsvSpendingTransaction(swapParams *swap.Openin
 		return "", "", "", err
 	}
 
-	_, vout, err := cl.bitcoinChain.GetVoutAndVerify(claimParams.OpeningTxHex, swapParams)
+	ok, vout, err := cl.bitcoinChain.GetVoutAndVerify(claimParams.OpeningTxHex, swapParams)
 	if err != nil {
 		return "", "", "", err
+	}
+	if !ok {
+		return "", "", "", errSwapOutputNotFound
 	}
 
 	tx, sigHash, redeemScript, err := cl.bitcoinChain.PrepareSpendingTransaction(swapParams, claimParams, newAddr, vout, onchain.BitcoinCsv, 0)
@@ -152,9 +162,12 @@ func (cl *ClightningClient) CreateCoopSpendingTransaction(swapParams *swap.Openi
 	if err != nil {
 		return "", "", "", err
 	}
-	_, vout, err := cl.bitcoinChain.GetVoutAndVerify(claimParams.OpeningTxHex, swapParams)
+	ok, vout, err := cl.bitcoinChain.GetVoutAndVerify(claimParams.OpeningTxHex, swapParams)
 	if err != nil {
 		return "", "", "", err
+	}
+	if !ok {
+		return "", "", "", errSwapOutputNotFound
 	}
 	spendingTx, sigHashBytes, redeemScript, err := cl.bitcoinChain.PrepareSpendingTransaction(swapParams, claimParams, refundAddr, vout, 0, refundFee)
 	if err != nil {
@@ -240,3 +253,7 @@ func (cl *ClightningClient) GetAsset() string {
 func (cl *ClightningClient) GetNetwork() string {
 	return cl.bitcoinChain.GetChain().Name
 }
+
+// errSwapOutputNotFound is returned if the output of the opening transaction
+// that carries the swap amount does not pay to the swap script.
+var errSwapOutputNotFound = errors.New("opening transaction does not pay the swap amount to the swap script")
